@@ -14,10 +14,12 @@ pub mod prim;
 pub mod report;
 pub mod rt;
 
+#[cfg(not(no_neon_port))]
 #[allow(dead_code, unused_imports, clippy::all)]
 pub mod neon_port {
     include!(concat!(env!("OUT_DIR"), "/engine_neon_port.rs"));
 }
+#[cfg(not(no_aarch64_port))]
 #[allow(dead_code, unused_imports, clippy::all)]
 pub mod default_aarch64_port {
     include!(concat!(env!("OUT_DIR"), "/engine_default_aarch64_port.rs"));
@@ -224,6 +226,9 @@ fn finish(ctx: &Ctx, mut rep: Report) -> ! {
         let _ = std::fs::create_dir_all(dir);
     }
     std::fs::write(&ev_path, ev.dump()).expect("write evidence");
+    for n in core::port_notes() {
+        println!("NOTE: {n}");
+    }
     println!(
         "{} tier={} build={} states={} transitions={} traces={} evaluations={} distinct={} exhaustive={} violations={} wall={:.1}s",
         ctx.property,
@@ -234,7 +239,7 @@ fn finish(ctx: &Ctx, mut rep: Report) -> ! {
         rep.traces,
         rep.evaluations,
         rep.distinct,
-        rep.exhaustive && rep.caps.is_empty(),
+        rep.exhaustive && rep.caps.is_empty() && core::port_notes().is_empty(),
         unlisted.len(),
         rep.start.elapsed().as_secs_f64()
     );
